@@ -1390,14 +1390,6 @@ example : WF.wellFormed nullableWs = false := by decide
 example : WF.wellFormed lrThroughTrivia = false := by decide
 example : WF.wellFormed badRef = false := by decide
 
-/-- … and rightly so: the models run out of any fuel on them -/
-def isOof1 : R1 → Bool
-  | .oof => true
-  | _ => false
-example : isOof1 (L1.parse lrDirect #[49] 50 "e" 0) = true := by decide +kernel
-example : isOof1 (L1.parse repNullable #[98] 50 "e" 0) = true := by decide +kernel
-example : isOof1 (L1.parse nullableWs #[97, 98] 50 "e" 0) = true := by decide +kernel
-example : isOof1 (L1.parse lrThroughTrivia #[99, 98] 50 "e" 0) = true := by decide +kernel
 
 end C07
 end Pest
